@@ -7,6 +7,7 @@ import (
 	"sort"
 	"strings"
 	"testing"
+	"time"
 
 	"github.com/centrifugal/centrifuge/internal/redispartition"
 	"github.com/centrifugal/centrifuge/verifx/kit"
@@ -139,8 +140,10 @@ func TestC35(t *testing.T) {
 			"'computed exactly as Redis computes them' = CRC16-CCITT/XMODEM of the hash-tag content mod 16384 per the Redis Cluster specification; the oracle is validated on the specification vector 123456789 -> 0x31C3 and known CLUSTER KEYSLOT values (foo 12182, bar 5061, hello 866, {user}.info 5474)",
 			"'supported partition counts' for precomputed tags = redispartition.PrecomputedSizes(); FindTags must reject every other count",
 		},
-		Cases:           map[string]int{"quick": len(us), "thorough": len(us)},
-		MinNontrivial:   1000,
+		Cases:         map[string]int{"quick": len(us), "thorough": len(us)},
+		MinNontrivial: 1000,
+		// pure CPU-bound cases: the watchdog only has to catch a genuine hang, not CPU starvation on a loaded host
+		CaseTimeout:     20 * time.Minute,
 		RequireCounters: []string{"pairs_balanced", "tags_checked", "slot_to_node_slots_compared", "sizes_checked", "findtags_rejected"},
 		Run:             func(c *kit.Case) { run(c, us[c.Index]) },
 	})
